@@ -16,6 +16,7 @@ from harness import c06
 KNOWN = {}
 
 POOL = {
+    "a_excl.sql": "-- sqlfluff:exclude_rules:LT01\nSELECT  a FROM t\n",   # sorts first: its inline rule selection must stay its own
     "plain.sql": "SELECT  a,b FROM t\n",
     "blocks.sql": "SELECT {% for c in ['x', 'y'] %}{{ c }}, {% endfor %}1 FROM t\n",
     "broken.sql": "SELECT 1 +\n",
@@ -79,13 +80,22 @@ def make_repeat(n_ops):
             seen = []
             for k in range(n_ops):
                 n = choose(c, f"op{k}_file", names)
-                op = choose(c, f"op{k}_kind", ["lint", "parse", "render"])
+                op = choose(c, f"op{k}_kind", ["lint", "parse", "render", "lint_whole_dir"])
                 L = lin if share_linter else Linter(config=FluffConfig(overrides={"dialect": "ansi"}))
                 p = os.path.join(d, n)
                 if op == "lint":
                     got = [tuple(x) for x in lint_one(L, p)]
                     if got != base[n]:
                         ok = False
+                elif op == "lint_whole_dir":
+                    # one run over every file of the directory: each file's result must still equal its own baseline
+                    res = L.lint_paths((d,))
+                    for rec in res.as_records():
+                        nm = os.path.basename(rec["filepath"])
+                        got = [(v["code"], v["start_line_no"], v["start_line_pos"], v["description"]) for v in rec["violations"]]
+                        if got != base[nm]:
+                            ok = False
+                    c.witness("whole_directory_run")
                 elif op == "parse":
                     list(L.parse_path(p))
                 else:
@@ -140,12 +150,12 @@ def units(tier, seed):
     return [
         Unit(name=f"c32.repeat_lint[{n} operations]", functions=["sqlfluff.core.linter.linter.Linter.lint_path/parse_path/render_file", "BlockTracker (class state)",
              "load_config_file_as_dict (@cache)", "Linter.allowed_rule_ref_map"],
-             bounds={"operations": n, "operation": "lint / parse / render", "files": list(POOL), "linter object": "shared or fresh per operation"},
+             bounds={"operations": n, "operation": "lint / parse / render / lint the whole directory in one run", "files": list(POOL), "linter object": "shared or fresh per operation"},
              make=make_repeat(n), replay="concrete",
              stubs=["none: real files in a temp dir; the baseline is each file linted alone in a fresh subprocess; the operation "
                     "sequence is solver-forked"],
              outside=["'never opens a file for writing' as a syntactic fact", "fix mode"],
-             witnesses_required=["same_file_twice", "after_templated_file"], sharded=True, timeout_s=900 if tier == "quick" else 2400),
+             witnesses_required=["same_file_twice", "after_templated_file", "whole_directory_run"], sharded=True, timeout_s=900 if tier == "quick" else 2400),
         Unit(name="c32.allowed_rule_ref_map", functions=["sqlfluff.core.linter.linter.Linter.allowed_rule_ref_map", "IgnoreMask._parse_noqa"],
              bounds={"disable_noqa_except values": 5, "earlier call": "none or any of 5"}, make=make_ref_map(), replay="concrete",
              witnesses_required=["map_mutated_by_earlier_call"], sharded=False, timeout_s=120),
